@@ -21,6 +21,19 @@ using vt::void_t;
     {                                                          \
     };
 
+// byte constness of the view an expression yields: -1 expression ill-formed, 0 mutable bytes, 1 const bytes
+#define VRO_RESULT_BYTE(NAME, EXPR)                                                                         \
+    template<typename V, typename = void>                                                                   \
+    struct NAME                                                                                             \
+    {                                                                                                       \
+        static const int value = -1;                                                                        \
+    };                                                                                                      \
+    template<typename V>                                                                                    \
+    struct NAME<V, void_t<decltype(EXPR)>>                                                                  \
+    {                                                                                                       \
+        static const int value = std::is_const<sbepp::byte_type_t<decltype(EXPR)>>::value ? 1 : 0;         \
+    };
+
 template<typename V>
 using vt_of = typename V::value_type;
 template<typename V>
@@ -84,6 +97,11 @@ inline const char* mut()
 inline void C(const std::string& path, const char* op, const char* byte_mutable, const char* cursor, bool callable)
 {
     vrt::line("C " + path + " " + op + " " + byte_mutable + " " + cursor + " " + (callable ? "1" : "0"));
+}
+
+inline void B(const std::string& path, const char* wrapper, const char* view_mutable, const char* cursor_mutable, int result_const)
+{
+    vrt::line("B " + path + " " + wrapper + " " + view_mutable + " " + cursor_mutable + " " + std::to_string(result_const));
 }
 
 #define VRO_ROW(DET) C(p, #DET, mut<V>(), "-", DET<V>::value)
